@@ -228,6 +228,10 @@ pub fn scenario_of(h: &History) -> (Scenario, Vec<ExpCall>) {
     sc.sim.receipts = h.receipts.clone();
     sc.sim.dangling = h.dangling;
     sc.sim.intermediates = h.intermediates;
+    if h.intermediates == 2 {
+        // receipt chatter (print line + print text block) inside every exchange that allows it
+        sc.sim.chatter = chatter_packets(&crate::table()).iter().map(|p| hex(p)).collect();
+    }
     sc.plan = plan;
     sc.ops = calls.iter().map(|c| c.op.clone()).collect();
     (sc, calls)
